@@ -148,6 +148,30 @@ def order_rules(ctx):
             if n.get("k") == "binary" and n.get("op") == "|=" and n["l"].get("k") == "field" and n["l"]["name"] in bool_fields and sir.expr_str(n["l"]["base"]) in ("self", "this"):
                 n_assign += 1
                 obs.append(ob("C20.order/monotone/%s/%s" % (f.qual, n["l"]["name"]), True, ctx.where(f), "`self.%s |= %s` only ever turns the flag on" % (n["l"]["name"], sir.expr_str(n["r"])[:60])))
+    # configuration is not content: a field the constructors / setters choose (dev mode) is never changed by adding or importing
+    # files - otherwise the same set of files compiles differently depending on how it got into the group
+    def _assigned(fn_):
+        out = set()
+        for n in sir.walk(fn_.body):
+            if n.get("k") in ("assign", "binary") and (n.get("k") == "assign" or n.get("op", "").endswith("=") and n.get("op") not in ("==", "!=", "<=", ">=")) \
+                    and isinstance(n.get("l"), dict) and n["l"].get("k") == "field" and sir.expr_str(n["l"]["base"]) in ("self", "this"):
+                out.add(n["l"]["name"])
+        return out
+    gfns = [f for f in tc.fns if f.base == "TmplGroup" and f.body and "group" in f.module]
+    config = set()
+    for f in gfns:
+        if (f.name.startswith("new") and f.name != "new") or f.name.startswith("set_"):
+            config |= _assigned(f)
+    config -= set(map_fields)
+    changed = []
+    for f in gfns:
+        if f.name.startswith("new") or f.name.startswith("set_"):
+            continue
+        for fld in sorted(_assigned(f) & config):
+            changed.append("%s assigns `%s`" % (f.name, fld))
+    obs.append(ob("C20.order/config-untouched", bool(config) and not changed, "group.rs",
+                  "; ".join(changed) if changed else "configuration fields %s are assigned by constructors and setters only" % sorted(config),
+                  witness=None if not changed else "a production group that imports a dev-mode group emits `R.devArgs(..)`; the same files added directly do not"))
     if n_assign < 3:
         obs.append(ob("C20.order/floor", False, "group.rs", "only %d flag assignments found in TmplGroup mutators (floor 3)" % n_assign))
     imp = [f for f in tc.fns if f.base == "TmplGroup" and f.name == "import_group" and f.body and "group" in f.module]
